@@ -23,6 +23,7 @@ type readerState struct {
 type bufReaderState struct{ r *readerState }
 
 type scannerState struct {
+	split   Value // custom split function (nil: bufio.ScanLines)
 	r       *readerState
 	maxTok  int
 	buf     []Value
@@ -127,7 +128,27 @@ func init() {
 				advance := 0
 				var token []Value
 				haveToken := false
-				if !(s.readErr && len(data) == 0) {
+				if s.split != nil {
+					// the code under test supplied its own split function: call it
+					res := p.call(s.split, []Value{Slice{A: data}, s.readErr}, nil).(Tuple)
+					advance = int(concreteInt(res[0], "split advance"))
+					tok, _ := res[1].(Slice)
+					if e, _ := res[2].(Iface); e.T != nil {
+						s.done = true
+						if tok.A != nil {
+							s.tok = tok.A
+							return true
+						}
+						return false
+					}
+					if advance < 0 || advance > len(data) {
+						s.done = true
+						return false
+					}
+					if tok.A != nil {
+						token, haveToken = tok.A, true
+					}
+				} else if !(s.readErr && len(data) == 0) {
 					nl := -1
 					for i, b := range data {
 						if p.decideVal(p.equalsByte(b, '\n')) {
@@ -196,6 +217,18 @@ func init() {
 				s.end += n
 			}
 		}
+	}
+	models["(*bufio.Scanner).Split"] = func(p *Path, fn *ssa.Function, a []Value) Value {
+		s := scanner(a[0])
+		if f, ok := a[1].(*ssa.Function); ok && f.String() == "bufio.ScanLines" {
+			s.split = nil
+			return nil
+		}
+		if f, ok := a[1].(*ssa.Function); ok && f.Pkg != nil && f.Pkg.Pkg.Path() == "bufio" {
+			panic(unsupported("bufio split function %s", f.Name()))
+		}
+		s.split = a[1]
+		return nil
 	}
 	models["(*bufio.Scanner).Text"] = func(p *Path, fn *ssa.Function, a []Value) Value {
 		return mkStr(append([]Value(nil), scanner(a[0]).tok...))
